@@ -169,6 +169,13 @@ var _ http.Header
 //@   assigns nothing
 //@   safety[C15]
 
+// A decoded event payload: an empty payload is no payload; a payload that is not JSON is an error
+// and yields nothing.
+//@ func DecodeEvent
+//@   ensures[C15] result1 != nil ==> result0 == nil
+//@   assigns alloc()
+//@   safety[C15]
+
 // A change event that fails to decode yields no values at all (it is discarded as a whole).
 //@ func DecodeChangeEvent
 //@   assigns nothing
